@@ -1517,6 +1517,14 @@ class WebSocketClientConnection(simple_httpclient._HTTPConnection):
         self.headers = headers
         self.protocol = self.get_websocket_protocol()
         self.protocol._process_server_headers(self.key, self.headers)
+        selected = self.protocol.selected_subprotocol
+        if selected is not None:
+            offered_header = self.request.headers.get("Sec-WebSocket-Protocol", "")
+            offered = [s.strip() for s in offered_header.split(",")]
+            if selected not in offered:
+                raise ValueError(
+                    "Server selected a subprotocol that was not offered: %r" % selected
+                )
         self.protocol.stream = self.connection.detach()
 
         IOLoop.current().add_callback(self.protocol._receive_frame_loop)
